@@ -131,7 +131,8 @@ func caseCLI(t *testing.T, tp *simrt.Tape, c *Ctx) (res Result) {
 		var ok bool
 		rc, pc, ok = presetRef(presetName)
 		if !ok {
-			res.Infra = "preset " + presetName + " unknown to the library"
+			res.add("C17", "C17 documented preset is refused by the library", map[string]any{"preset": presetName})
+			res.NonTrivial = true
 			return
 		}
 		is88 = pc.Mode == gp.ICWS88
@@ -164,6 +165,41 @@ func caseCLI(t *testing.T, tp *simrt.Tape, c *Ctx) (res Result) {
 		is88 = tp.Draw("cli.88", 3) == 0
 		rc = ref.Config{M: uint64(M), P: uint64(P), C: uint64(C), R: uint64(M), W: uint64(M)}
 		fl := [][]string{{"-s", strconv.Itoa(M)}, {"-p", strconv.Itoa(P)}, {"-c", strconv.Itoa(C)}, {"-l", strconv.Itoa(L)}}
+		if tp.Draw("cli.defaults", 6) == 0 {
+			// leave flags out: the documented defaults apply (README: core 8000,
+			// processes 8000, cycles 80000, length 100)
+			omit := 1 + tp.Draw("cli.defaults.mask", 15)
+			var keep [][]string
+			for i, f := range fl {
+				if omit&(1<<i) == 0 {
+					keep = append(keep, f)
+					continue
+				}
+				switch i {
+				case 0:
+					M = 8000
+				case 1:
+					P = 8000
+				case 2:
+					C = 80000
+				case 3:
+					L = 100
+				}
+			}
+			if M < 3*L+1 {
+				M, keep = 8000, append(keep[:0:0], keep...)
+				var k2 [][]string
+				for _, f := range keep {
+					if f[0] != "-s" {
+						k2 = append(k2, f)
+					}
+				}
+				keep = k2
+			}
+			fl = keep
+			rc = ref.Config{M: uint64(M), P: uint64(P), C: uint64(C), R: uint64(M), W: uint64(M)}
+			res.stat("probe.flags-left-to-defaults", 1)
+		}
 		if is88 {
 			fl = append(fl, []string{"-8"})
 		}
@@ -211,6 +247,13 @@ func caseCLI(t *testing.T, tp *simrt.Tape, c *Ctx) (res Result) {
 					{Op: ref.JMP, Mod: ref.MB, AMode: ref.Direct, A: rc.M - 2, BMode: ref.Direct, B: 0},
 					{Op: ref.DAT, Mod: ref.MF, AMode: ref.Immediate, A: 0, BMode: ref.Immediate, B: 0}}}
 			}
+		}
+		if i == 0 && L <= 300 && tp.Draw("cli.atlimit", 10) == 0 && int(rc.M) >= 3*L+1 {
+			// a warrior exactly as long as the length limit must be accepted
+			for len(w.Code) < L {
+				w.Code = append(w.Code, ref.Ins{Op: ref.DAT, Mod: ref.MF, AMode: ref.Immediate, BMode: ref.Immediate})
+			}
+			res.stat("probe.warrior-exactly-at-length-limit", 1)
 		}
 		ws = append(ws, w)
 		name := fmt.Sprintf("w%d.red", i+1)
